@@ -251,6 +251,24 @@ func init() {
 		body := []sitem{{Kind: "probe", Name: "a"}, {Kind: "probe", Name: "v"}, {Kind: "let", Name: "a", Val: 7}, {Kind: "let", Name: "b", Val: 8}, {Kind: "set", Name: "v", Val: 9}, {Kind: "probe", Name: "a"}, {Kind: "probe", Name: "b"}, {Kind: "probe", Name: "v"}}
 		tail := []sitem{{Kind: "probe", Name: "a"}, {Kind: "probe", Name: "b"}, {Kind: "probe", Name: "v"}}
 		kinds := []string{"for", "fn", "partial", "content", "blkctx", "defblk", "forit", "fn0"}
+		// the arguments of a call are evaluated in the CALLER's scope, all of them, before any parameter
+		// is bound: an earlier parameter never hides a caller's variable of the same name from a later argument
+		for _, t := range [][2]string{
+			{`<% let a = "A" %><% let b = "B" %><% let pair = fn(a, b) { return a + "-" + b } %><%= pair(b, a) %>|<%= a %><%= b %>`, "B-A|AB"},
+			{`<% let pair = fn(k, v) { return k + "=" + v } %><%= for (k, v) in ["x", "y"] { %><%= pair("" + v, "" + k) %>;<% } %>`, "x=0;y=1;"},
+			{`<% let three = fn(a, b, c) { return a + b + c } %><% let a = "1" %><% let b = "2" %><% let c = "3" %><%= three(c, a, b) %>|<%= three(b, c, a) %>`, "312|231"},
+			{`<% let outer = fn(a, b) { let inner = fn(a, b) { return a + b }
+ return inner(b, a) } %><%= outer("x", "y") %>`, "yx"},
+			{`<% let f = fn(a, b) { return a + b } %><% let a = "p" %><%= f(a + "1", a + "2") %>|<%= f("q", a) %>`, "p1p2|qp"},
+			{`<% let g = fn(v, w) { %>[<%= v %><%= w %>]<% } %><% let v = "V" %><% let w = "W" %><%= g(w, v) %><%= blkctx({v: "D"}) { %><%= g("n", v) %><% } %>`, "[WV][nD]"},
+		} {
+			c := RCase{Tmpl: t[0], Binds: []Bind{{"blkctx", vGo(105)}}}
+			o := e.addRenderCase("argument-scope", c)
+			e.Distinct(t[0])
+			if o.Class != "OK" || o.Out != t[1] {
+				e.Violate("c09-scope", fmt.Sprintf("%s rendered %q (%s %s), want %q", t[0], o.Out, o.Class, firstLine(o.Msg), t[1]), map[string]interface{}{"case": c, "observed": o})
+			}
+		}
 		// bodies whose only bindings are lets nested in if / else branches (no let at their top level)
 		for _, k1 := range kinds {
 			for _, val := range []int{4, 5} {
